@@ -132,8 +132,10 @@ def witness_job(mc, w, *, must=True, timeout_s=900):
     return job
 
 
-def bfs_job(mc, *, emit="EmitEvery", workers=2, timeout_s=900, limit=None, seed=1):
-    """All behaviours of the bounded model that end in a Collect (a seeded sample beyond `limit`)."""
+def bfs_job(mc, *, emit="EmitEvery", workers=1, timeout_s=900, limit=None, seed=1):
+    """One behaviour for every distinct state of the bounded model that is reached by a Collect (hist is
+    outside the VIEW, so TLC keeps the first path to a state; workers=1 makes that choice deterministic);
+    a seeded sample beyond `limit`."""
     def job(rundir, i):
         c = _cfgfile(rundir, mc, "bfs%d.cfg" % i, True, [emit])
         r = T.tlc("MC_MetricsSync", c, rundir=rundir, workers=workers, timeout_s=timeout_s, tag="bfs%d" % i)
